@@ -34,10 +34,11 @@ def from_error_trace(r):
     return [convert_state(l, s) for l, s in tlaval.parse_error_trace(r.out)]
 
 
-def replay(c, behs, native, nkeys=1, retry=2, timeout=3000, only_once=False):
+def replay(c, behs, native, nkeys=1, retry=2, timeout=3000, only_once=False, force=False):
     d = vlib.scratch('loop-')
     p = os.path.join(d, 'in.json')
-    json.dump({'native': native, 'nkeys': nkeys, 'retryCount': retry, 'onlyOnce': only_once, 'behaviours': behs}, open(p, 'w'))
+    json.dump({'native': native, 'nkeys': nkeys, 'retryCount': retry, 'onlyOnce': only_once, 'force': force,
+               'behaviours': behs}, open(p, 'w'))
     return vlib.run_harness(['loop', p], timeout=timeout)
 
 
@@ -105,7 +106,8 @@ def run_suite(c, prop, extra_props=(), with_window=True, window_inv=None):
 
 
 def run_extra(c, prop, kind, extra_props=()):
-    """Start-up with another instance's snapshot in the bucket and the start tracker ('ready'), or only_once ('once'):
+    """Start-up with another instance's snapshot in the bucket and the start tracker ('ready'), only_once ('once'),
+    or the forced-snapshot interval ('force'):
     exhaustive TLC (smaller constants in the quick tier), simulated behaviours replayed through the real loop."""
     thorough = c.tier == 'thorough'
     for tag, native in (('native', True), ('shadow', False)):
@@ -115,7 +117,9 @@ def run_extra(c, prop, kind, extra_props=()):
         behs = simulate(c, 'LSLoop_%s_%s.cfg' % (tag, kind), 3000 if thorough else 400, 45)
         if kind == 'once':
             behs = [b for b in behs if any(s['act'].get('to') == 'exit' for s in b) or b[0]['act'].get('other')]
+        elif kind == 'force':
+            behs = [b for b in behs if any(s['act']['name'] == 'interval' for s in b)]
         else:
             behs = [b for b in behs if b[0]['act'].get('other')]
-        res = replay(c, behs, native, only_once=(kind == 'once'))
+        res = replay(c, behs, native, only_once=(kind == 'once'), force=(kind == 'force'))
         absorb(c, res, prop, extra_props)
